@@ -615,3 +615,7 @@ def run(rep, program: Program, tier: str) -> None:
     from . import c14
 
     rep.isolate(c14.rule_r3, rep, program, prop=PROP, rule="R5")
+    # the arrays are sized from the trace_warm_up option; the stagers must record / trace warm-up stages under exactly that option (shared with C16-R1)
+    from . import c16
+
+    rep.isolate(c16.rule_record_flags, rep, program, prop=PROP, rule="R6")
